@@ -7,6 +7,7 @@ import Driver.Color
 import Driver.Terminfo
 import Driver.Lookup
 import Driver.Wasm
+import Driver.Parse
 /-
 Line-protocol driver: one case per line, first token selects the engine, one reply line per case.
 Stateless across lines (a line is a complete case = a replay).  Core-only imports so that it links.
@@ -27,6 +28,10 @@ def dispatch (env : Env) (eng rest : String) : String :=
   | "tparm" | "tparmref" | "tputs" | "tputsref" | "tgoto" | "tgotoref" | "tcolor" | "tcolorref" => Terminfo.run env eng rest
   | "lookup" => Lookup.run env rest
   | "wasm" => Wasm.run env.rw rest
+  | "parse" => Parse.run env rest
+  | "parsechunk" => Parse.run env rest
+  | "keytable" => Parse.runKeyTable env rest
+  | "keyseq" => Parse.runKeySeq env rest
   | _ => "bad-engine"
 
 def handle (env : Env) (line : String) : String :=
